@@ -77,7 +77,8 @@ def run_selftest(prop, spec, root, repo, only=None):
                 r = verus_unit.run_unit(os.path.join(root, "units", unit + ".toml"), SCRATCH, root, build_root,
                                         do_twin=False)
             ids = [f["id"] for f in r["failures"]]
-            hit = [i for i in ids if expect in i]
+            # the expectation is about the function / harness and obligation kind, not about the unit's name
+            hit = [i for i in ids if expect in i.split("/", 1)[-1]]
             rec["reported"] = ids[:4]
             if hit:
                 rec["result"] = "killed"
